@@ -412,7 +412,9 @@ class ConstantDiagLinearOperator(DiagLinearOperator):
     def solve_triangular(
         self, rhs: torch.Tensor, upper: bool, left: bool = True, unitriangular: bool = False
     ) -> torch.Tensor:
-        return rhs / self.diag_values
+        # a right-hand side of shape (*batch, n) is a batch of vectors (the rule torch.linalg.solve uses)
+        is_vector = rhs.dim() == 1 or rhs.shape == self.shape[:-1]
+        return rhs / (self.diag_values if is_vector else self.diag_values.unsqueeze(-1))
 
     def sqrt(self: Float[LinearOperator, "*batch M N"]) -> Float[LinearOperator, "*batch M N"]:
         """
